@@ -174,7 +174,51 @@ example : ∃ pb wb d, encode JetsE.jc JetsE.ofName #[Node.unit] d.annots true (
   obtain ⟨h1, h2⟩ := roundtrip_canonical elementsTables elements_ofName_nameOf _ _ _ _ _ H
   exact ⟨_, _, ⟨#[Node.unit], #[(.one, .one)], _, an⟩, h1, h2, rfl, rfl⟩
 
+/-- a three-node program with a witness: `comp witness unit : 1 → 1` (the witness has type `1 → 1`,
+its value is the unit value, compact bits `[]`) -/
+def compWitnessUnit : Plan := #[Node.witness, Node.unit, Node.comp 0 1]
+
+/-- non-vacuity of `roundtrip_canonical` on a program with several nodes and a witness: every
+hypothesis of `CanonicalPlan` holds for `comp witness unit` — canonical order, conversion, type
+inference (evaluated), witness typing, existence of the annotations — *except* that the pairwise
+difference of its three identity roots, which are SHA-256 values, is not evaluated in the kernel and
+stays a hypothesis here (the driver evaluates it on every generated program). -/
+theorem compWitnessUnit_canonical :
+    ∃ an, annots JetsE.jetCmr JetsE.jetCost compWitnessUnit #[(.one, .one), (.one, .one), (.one, .one)]
+        (fun i => if i = 0 then some [] else none) = some an ∧
+      ((ihrList compWitnessUnit an).eraseDups.length = (ihrList compWitnessUnit an).length →
+        CanonicalPlan elementsTables [.witness, .unit, .comp 0 1] compWitnessUnit
+          #[(.one, .one), (.one, .one), (.one, .one)] an (fun i => if i = 0 then some [] else none)) := by
+  obtain ⟨an, ha⟩ : ∃ an, annots JetsE.jetCmr JetsE.jetCost compWitnessUnit
+      #[(.one, .one), (.one, .one), (.one, .one)] (fun i => if i = 0 then some [] else none) = some an := by
+    simp [annots, annots.go, annotNode, compWitnessUnit]
+  refine ⟨an, ha, fun hihr => ⟨by simp, by decide, ⟨trivial, trivial, ⟨by decide, by decide⟩, trivial⟩,
+    by decide, by rfl, ?_, ?_, ?_, ha, hihr⟩⟩
+  · intro nd hnd a' e
+    subst e
+    simp [compWitnessUnit] at hnd
+  · have hc : constraints JetsE.jetTy compWitnessUnit true =
+        some [(.var 3, .one), (.var 1, .var 2), (.var 4, .var 0), (.var 5, .var 3), (.var 4, .one), (.var 5, .one)] := by rfl
+    have hu : ∀ n, Inf.unify (n + 7)
+        [(.var 3, .one), (.var 1, .var 2), (.var 4, .var 0), (.var 5, .var 3), (.var 4, .one), (.var 5, .one)] [] =
+        .ok [(0, .one), (5, .one), (4, .one), (1, .var 2), (3, .one)] := fun _ => rfl
+    show infer JetsE.jetTy compWitnessUnit true = .ok #[(.one, .one), (.one, .one), (.one, .one)]
+    unfold infer
+    rw [hc]
+    have : unifyFuel = (unifyFuel - 7) + 7 := by decide
+    rw [this]
+    simp only [hu]
+    congr 1
+    have : Array.range compWitnessUnit.size = #[0, 1, 2] := by decide
+    rw [this]
+    simp [Inf.closeUnit, Inf.lookup, Inf.Tm.eval, tyOfInf]
+  · intro j hj
+    simp [wIdx, compWitnessUnit] at hj
+    subst hj
+    exact ⟨[], .unit, by simp, by rfl⟩
+
 #print axioms roundtrip_canonical
+#print axioms compWitnessUnit_canonical
 #print axioms decoded_is_canonical
 #print axioms unit_canonical
 
